@@ -236,6 +236,10 @@ func symDecrypt(params *ECIESParams, key, ct []byte) (m []byte, err error) {
 		return
 	}
 
+	// the cipher text starts with the IV. It may come from network, Decrypt only knows that it is not empty
+	if len(ct) < params.BlockSize {
+		return nil, ErrInvalidMessage
+	}
 	ctr := cipher.NewCTR(c, ct[:params.BlockSize])
 
 	m = make([]byte, len(ct)-params.BlockSize)
